@@ -297,7 +297,8 @@ def run_reads(case, prefix, seed):
     damage {"sv:shnum": kind}; server_kind {str(sv): kind}; groups [[[offset,size],...],...]
     (reads of one group are started together on ONE node object, groups run one after another);
     fault_kinds; explore_groups (indexes of groups whose execution is explored);
-    fail_after_group {str(sv): g}: server sv answers every call with an error once group g is over."""
+    fail_after_group {str(sv): g}: server sv answers every call with an error once group g is over;
+    guess: the reader's default_max_segment_size (what a fresh node guesses segment boundaries from)."""
     prep = prepare(case["k"], case["n"], case["seg"], case["size"], seed, tuple(case.get("bad_ct", ())))
     data = prep["data"]
     ch = grid.Chooser(prefix)
@@ -308,6 +309,12 @@ def run_reads(case, prefix, seed):
     if case.get("cpu"):
         g.sched.cpu_events()     # thread-pool work completes as a scheduled event, see grid.Sched.cpu_events
     viol, obs = [], {"outcomes": []}
+    from allmydata.immutable.downloader.node import DownloadNode as _DN
+    saved_guess = _DN.default_max_segment_size
+    if case.get("guess"):
+        # the reader's own default maximum segment size (from which a fresh node guesses the segment
+        # boundaries before it has seen the UEB) differs from the one the file was uploaded with
+        _DN.default_max_segment_size = case["guess"]
     try:
         placement = {int(sh): list(svs) for sh, svs in case["placement"].items()}
         blobs = {}
@@ -428,6 +435,7 @@ def run_reads(case, prefix, seed):
         obs["logged_exceptions"] = sorted(set(type(e.value).__name__ for (why, e) in boot.take_logged()))
         obs["events"] = len(sched.log)
     finally:
+        _DN.default_max_segment_size = saved_guess
         g.close()
     return ch.trace, viol, obs
 
